@@ -154,7 +154,7 @@ func genC03(r *gen.Rand) *C03Case {
 		}
 	}
 	// variations
-	switch r.Intn(15) {
+	switch r.Intn(16) {
 	case 0: // $parent name pointing at another base
 		put(filepath.Join(dir, "other.yaml"), mkBase("other"))
 		setParent(top, "other", r.Chance(0.3))
@@ -234,6 +234,17 @@ func genC03(r *gen.Rand) *C03Case {
 		setParent(chain[0], "x.y", false)
 		c.Linear = false
 		c.Shape = append(c.Shape, "parent-chain")
+	case 12: // one shared layer linked into two directories: it occurs twice on one ancestor line, legitimately
+		w.Dirs = append(w.Dirs, c03Dir+"/shared", c03Dir+"/staging", c03Dir+"/prodd")
+		// (only list content: the shared layer is applied twice, and a scalar would be a useless override the second time)
+		put(c03Dir+"/shared/app.yaml", map[string]any{"$parent": "base", "list": []any{"shared"}, "more": []any{map[string]any{"s": 1}}})
+		w.Links = append(w.Links, procsim.Link{Path: c03Dir + "/staging/app.yaml", Target: "../shared/app.yaml"})
+		w.Links = append(w.Links, procsim.Link{Path: c03Dir + "/prodd/app.yaml", Target: "../shared/app.yaml"})
+		put(c03Dir+"/staging/base.yaml", map[string]any{"env": "staging", "list": []any{"sb"}})
+		put(c03Dir+"/prodd/base.yaml", map[string]any{"$parent": "../staging/app", "env2": "prod", "list": []any{"pb"}})
+		top = c03Dir + "/prodd/app.yaml"
+		c.Linear = false
+		c.Shape = append(c.Shape, "shared-layer-linked-twice")
 	case 9: // diamond: two parents sharing a grandparent (the grandparent is loaded twice)
 		put(filepath.Join(dir, "g.yaml"), mkBase("g"))
 		put(filepath.Join(dir, "d1.yaml"), map[string]any{"$parent": "g", "k_d1": 1, "list": []any{"d1"}}, map[string]any{"$match": nil, "d1doc": 2})
